@@ -9,6 +9,8 @@ documented clauses; DevClass names the classes where the code is known to leave 
 1. TLC model-checks MatRegMC exhaustively (every history over a bounded heap): in every reachable state, for every
    enabled operation, Impl breaks a documented clause exactly in the named deviation classes (OnlyKnownDivergence),
    RoundTripEqual, NoActionAtADistance, conversions read the bound object, store=True keeps names unique, references resolve.
+   quick: MatRegMC.cfg (2 objects, 1 isotherm); thorough adds MatRegMCTwoIsos.cfg (2 objects, 2 isotherms) and
+   MatRegMCThorough.cfg (3 objects, density + molar mass, 3 bases) and reads TLC's per-action coverage (no dead action).
 2. `tlc -simulate` of the same machine on a larger alphabet (three names - two differing in letter case only -, three
    property keys, three bases) produces behaviours; each is replayed on real Material / PointIsotherm objects with
    pygaps.MATERIAL_LIST emptied for the behaviour and restored afterwards.  After every step the real objects are
@@ -22,6 +24,7 @@ import json
 import os
 import re
 import shutil
+import time
 from fractions import Fraction
 
 from ..common import Run, exc_class, MachineryError, quiet_pygaps
@@ -306,8 +309,9 @@ def main(tier, seed):
     res = tlc.must_pass("MatRegMC", timeout=900, coverage=thorough)
     runs["MatRegMC"] = res
     if thorough:
+        runs["MatRegMCTwoIsos"] = tlc.must_pass("MatRegMC", cfg="MatRegMCTwoIsos", timeout=1200)
         runs["MatRegMCThorough"] = tlc.must_pass("MatRegMC", cfg="MatRegMCThorough", timeout=1200)
-    if res["distinct"] < 10000:
+    if res["distinct"] < 5000 or any(r["distinct"] < 30000 for k, r in runs.items() if k != "MatRegMC"):
         raise MachineryError("design-level state space collapsed (vacuous model)")
     if thorough:
         cov = {a: res["coverage"].get("MatReg!" + a) for a in ACTIONS}
@@ -320,13 +324,14 @@ def main(tier, seed):
             tlc_invariants=["TypeOK", "RefsResolve", "AllOperations = OnlyAppendBreaksUnique /\\ OnlyKnownDivergence /\\ RoundTripEqual /\\ NoActionAtADistance /\\ "
                             "ConversionUsesBoundObject /\\ SharedObjectSeesEdits (for every enabled operation)", "FindFirstMatch"])
 
+    t_mc = time.time() - run.t0
     # ---- 2. behaviours from TLC, replayed on real objects
     alpha = tlc.oracle("MatRegOracle", [{"alphabet": True}], cfg="MatRegOracle", timeout=300)[0]
     out0 = {"res": "ok", "h": 0, "v": 0, "render": "", "name": "", "props": {k: 0 for k in alpha["keys"]}, "x": 0, "num": 0, "den": 1}
     # two alphabets: the wide one, and one where every object carries the same name (namesakes, duplicate registrations)
-    behs = behaviours("MatRegSim", 150 if thorough else 50, 30 if thorough else 24, seed + 11, 8)
+    behs = behaviours("MatRegSim", 100 if thorough else 30, 30 if thorough else 24, seed + 11, 8)
     nwide = len(behs)
-    behs += behaviours("MatRegSimNamesakes", 100 if thorough else 40, 30 if thorough else 20, seed + 12, 8)
+    behs += behaviours("MatRegSimNamesakes", 60 if thorough else 25, 30 if thorough else 20, seed + 12, 8)
     records, meta, index = [], [], {}
     per_action = {a: 0 for a in ACTIONS}
     diverged = 0
@@ -360,8 +365,11 @@ def main(tier, seed):
     if dead:
         raise MachineryError("no replayed step for action(s) " + ", ".join(dead))
 
+    t_replay = time.time() - run.t0 - t_mc
     # ---- 3. TLC judges every observed step
     answers = tlc.oracle("MatRegOracle", records, cfg="MatRegOracle", timeout=900, chunk=4000)
+    t_oracle = time.time() - run.t0 - t_mc - t_replay
+    run.set(seconds={"model_checking": round(t_mc, 1), "simulate_and_replay": round(t_replay, 1), "step_oracle": round(t_oracle, 1)})
     devs = {d: 0 for d in alpha["devs"]}
     predicted = {d: 0 for d in alpha["devs"]}
     absent = {}
@@ -399,9 +407,18 @@ def main(tier, seed):
             rule="TLC -simulate behaviours of MatRegMC (MatRegSim.cfg: 3 names, 3 property keys x 2 values, 3 bases, 2 isotherms, <= 6 objects), "
                  f"{nwide} behaviours of depth <= {30 if thorough else 24}, and {len(behs) - nwide} behaviours of MatRegSimNamesakes.cfg (one name, <= 4 objects); every step replayed on real objects and judged by MatRegOracle!StepVerdict from the "
                  "observed pre-state; non-trivial = every step except Material(...) without store; distinct = distinct (pre-state, operation, post-state, outcome)")
-    i = max(range(len(records)), key=lambda j: (answers[j]["dev"] != "none", len(meta[j]["history"]) <= 6, -len(meta[j]["history"])))
-    run.sample({"history": meta[i]["history"], "op": records[i]["op"], "pre": records[i]["pre"], "post": records[i]["post"], "out": records[i]["out"],
-                "tlc_verdict": {k: answers[i][k] for k in ("ok", "violated", "dev", "as_impl")}})
+    def pick(pred):
+        js = [j for j in range(len(records)) if pred(j)]
+        return min(js, key=lambda j: len(meta[j]["history"])) if js else None
+    for pred in (lambda j: answers[j]["dev"] == "RoundTripRebindsToRegisteredNamesake",
+                 lambda j: "conversion while a namesake holds another value" in answers[j]["tags"],
+                 lambda j: answers[j]["dev"] == "DictUpdatesRegistered" and any(x["mat"] == records[j]["post"]["iso"][records[j]["op"]["i"] - 1]["mat"]
+                                                                                for k, x in enumerate(records[j]["pre"]["iso"]) if k != records[j]["op"]["i"] - 1)):
+        i = pick(pred)
+        if i is not None:
+            run.sample({"history": meta[i]["history"], "op": {k: v for k, v in records[i]["op"].items() if v not in ("", 0, False)}, "pre": records[i]["pre"],
+                        "post": records[i]["post"], "out": {k: v for k, v in records[i]["out"].items() if v not in ("", 0)},
+                        "tlc_verdict": {k: answers[i][k] for k in ("ok", "violated", "dev", "as_impl", "tags")}})
     run.sample({"behaviour": [op_label(s[0]) for s in behs[0]]})
     run.assume("object identity is projected to allocation order: the harness learns of a Material object when an operation returns it, "
                "an isotherm is bound to it, or it appears in MATERIAL_LIST")
